@@ -227,6 +227,7 @@ func decodeBlock(raw []byte) *reftx.Block {
 // ---------------------------------------------------------------- worker protocol
 
 type Job struct {
+	Dir    string   `json:"dir"` // scratch directory of this history (created and removed by the parent)
 	Prefix string   `json:"prefix"`
 	Focus  int      `json:"focus"`
 	Events []string `json:"events"`
@@ -245,7 +246,7 @@ type Result struct {
 	StateKey string   `json:"state_key,omitempty"`
 	Enabled  []string `json:"enabled,omitempty"`
 	Oracles  int      `json:"oracles"` // number of oracle evaluations with the index enabled
-	Nontriv  int      `json:"nontriv"` // ... of which the expected projection was non-empty
+	Nontriv  int      `json:"nontriv"` // ... of which the expected projection of the focus address was non-empty
 	MapRep   bool     `json:"map_rep"` // the focus record was in map representation at some point
 	Reorgs   int      `json:"reorgs"`
 }
@@ -649,8 +650,8 @@ func (w *world) oracle(after string) {
 		g.ins[inpKey(o.Tx[:], o.Vout)] = true
 		g.total += c.Value
 	}
-	if len(exp) > 0 {
-		w.res.Nontriv++
+	if g := exp[string(w.X.Script)]; g != nil && len(g.ins) > 0 {
+		w.res.Nontriv++ // the focus address has unspent outputs at or above the minimum
 	}
 	// 1. GetAllUnspent for every address of the alphabet
 	for _, a := range addrs {
@@ -855,8 +856,10 @@ func runJob(job *Job) (res *Result) {
 	res = &Result{}
 	lap("runJob")
 	w := &world{job: job, res: res, X: addrs[job.Focus]}
-	w.dir = ev.Scratch("c17w")
-	defer os.RemoveAll(w.dir)
+	w.dir = job.Dir
+	if w.dir == "" {
+		hfail("job without scratch directory")
+	}
 	defer func() {
 		if r := recover(); r != nil {
 			switch x := r.(type) {
@@ -1002,6 +1005,10 @@ var workerCPU int64 // nanoseconds of CPU used by finished workers
 
 // runWorker executes one history in a fresh process and classifies its death.
 func runWorker(job *Job) *Result {
+	// the scratch directory belongs to the parent: it disappears even when the worker
+	// dies inside gocoin (os.Exit, fatal error, watchdog kill)
+	job.Dir = ev.Scratch("c17w")
+	defer os.RemoveAll(job.Dir)
 	in, _ := json.Marshal(job)
 	cmd := exec.Command(os.Args[0], "--worker")
 	cmd.Env = append(os.Environ(), "GOMAXPROCS=1")
@@ -1358,20 +1365,20 @@ func main() {
 		ev.HarnessError("%d histories failed for infrastructure reasons; first: %s", len(x.harness), x.harness[0])
 	}
 	r.Finish(map[string]interface{}{
-		"states":                        x.states,
-		"transitions":                   x.transitions,
-		"traces_validated_against_impl": x.transitions,
-		"oracle_evaluations_index_on":   x.oracles,
-		"oracle_evaluations_nontrivial": x.nontriv,
-		"histories_with_reorg":          x.reorgs,
-		"histories_reaching_map_rep":    x.mapRep,
-		"per_event":                     x.perEvent,
-		"per_focus":                     x.perFocus,
-		"depth_completed":               x.depthDone,
-		"violations_confirmed_3x":       x.confirmed,
-		"prefix_dirs_rebuilt":           x.rebuilt,
-		"worker_cpu_s":                  float64(atomic.LoadInt64(&workerCPU)/1e7) / 100,
-		"samples":                       x.samples.L,
+		"states":                            x.states,
+		"transitions":                       x.transitions,
+		"traces_validated_against_impl":     x.transitions,
+		"oracle_evaluations_index_on":       x.oracles,
+		"oracle_evaluations_focus_nonempty": x.nontriv,
+		"histories_with_reorg":              x.reorgs,
+		"histories_reaching_map_rep":        x.mapRep,
+		"per_event":                         x.perEvent,
+		"per_focus":                         x.perFocus,
+		"depth_completed":                   x.depthDone,
+		"violations_confirmed_3x":           x.confirmed,
+		"prefix_dirs_rebuilt":               x.rebuilt,
+		"worker_cpu_s":                      float64(atomic.LoadInt64(&workerCPU)/1e7) / 100,
+		"samples":                           x.samples.L,
 		"rule": "BFS over event histories per focus address type (P2PKH, P2SH, P2WPKH, P2WSH, P2TR, non-standard; all other types present as static background outputs); every history runs in a fresh worker process on a copy of a 105-block chain; " +
 			"oracle after every delivered block / wallet switch for every address of the alphabet; state key = (index on/off, snapshot saved for tip, observed list/map representation, X's outputs in creation order with age class/tx index/vout/value, X-outputs spent by the two topmost blocks); " +
 			"type-symmetry reduction: full depth for the deep focus types, reduced depth for the others (per_focus.depth_target)",
